@@ -42,6 +42,18 @@ var c07SkipPkgs = map[string]bool{
 	"crypto/cmac": true, "crypto/rc4": true, "crypto/dcc": true, "crypto/dcc2": true, "logger": true,
 }
 
+// fixed-size helper contracts: exported decoders with no error path. Their own
+// sites are judged without the contract (they are findings for external
+// callers); every in-module call site must establish it.
+var c07Requires = map[string]int64{
+	"(*" + load.Mod + "/windows/guid.GUID).FromRawBytes":                            16,
+	"(*" + load.Mod + "/windows/keycredential/key.KeyCredentialVersion).FromBytes":  4,
+	"(*" + load.Mod + "/windows/keycredential/key.KeyStrength).FromBytes":           4,
+	"(*" + load.Mod + "/windows/keycredential/crypto.SecretEncryptionType).FromBytes": 4,
+	"(" + load.Mod + "/windows/keycredential/key.KeySource).FromBytes":              2,
+	load.Mod + "/windows/keycredential/utils.ConvertFromBinaryTime":                 8,
+}
+
 func takesInput(sig *types.Signature) bool {
 	for i := 0; i < sig.Params().Len(); i++ {
 		t := sig.Params().At(i).Type()
@@ -168,6 +180,8 @@ func runC07(c *Ctx) {
 		"nil receivers / nil pointer arguments are API misuse, not input-driven, and out of scope",
 	}
 	w := prove.NewWorld(p)
+	axiomUses = nil
+	w.Axioms = append(w.Axioms, axiomRegexParts(w))
 	entries := C07Entries(p, w)
 	skip := func(f *ssa.Function) bool { return c07SkipPkgs[relPkg(p, f)] }
 	scope := w.Reachable(entries, skip)
@@ -232,6 +246,18 @@ func runC07(c *Ctx) {
 					})
 				case *ssa.Call:
 					pk := posKeyOf(p, x.Pos())
+					if sc := x.Common().StaticCallee(); sc != nil {
+						if min, ok := c07Requires[sc.String()]; ok {
+							// first byte-sequence argument
+							for _, a := range x.Common().Args {
+								if prove.IsByteSeq(a.Type()) {
+									construct := fname + ": " + ai.render(x.Pos(), x.String())
+									emit(r, "requires", construct, pk, w.ProveArgLen(x, a, min))
+									break
+								}
+							}
+						}
+					}
 					if o, ok := w.ProveCallPre(x); ok {
 						expr := ai.render(x.Pos(), x.String())
 						construct := fname + ": " + expr
@@ -276,16 +302,57 @@ func runC07(c *Ctx) {
 	r.Extra["proved_by_compiler"] = nCompiler
 	r.Extra["residual_sites_in_scope"] = nResidual
 
-	// consumed-count summaries
+	// consumed-count summaries: callers assume 0 <= n <= len(data) after a
+	// successful call; the callee must guarantee it wherever a caller in scope
+	// actually uses the count.
+	countUsed := map[*ssa.Function]bool{}
 	for _, fn := range scope {
+		for _, b := range fn.Blocks {
+			for _, in := range b.Instrs {
+				call, ok := in.(*ssa.Call)
+				if !ok || call.Referrers() == nil {
+					continue
+				}
+				for _, ref := range *call.Referrers() {
+					ex, ok := ref.(*ssa.Extract)
+					if !ok || ex.Referrers() == nil || len(*ex.Referrers()) == 0 {
+						continue
+					}
+					sig := call.Common().Signature()
+					idx := -1
+					if _, ok := prove.ConsumedShape(sig); ok {
+						idx = 0
+					} else if prove.OffsetShape(sig) {
+						idx = 1
+					}
+					if ex.Index != idx {
+						continue
+					}
+					for _, cal := range w.CalleesOf(call) {
+						countUsed[cal] = true
+					}
+				}
+			}
+		}
+	}
+	nUsed := 0
+	for _, fn := range scope {
+		if !countUsed[fn] {
+			continue
+		}
 		kind, obls := w.ConsumedObligations(fn)
+		if kind != "" {
+			nUsed++
+		}
 		for _, o := range obls {
 			construct := fmt.Sprintf("%s: return #%d", p.FuncName(fn), o.Ordinal)
 			emit(r, kind, construct, posKeyOf(p, o.Ret.Pos()), o.Outcome)
 		}
 	}
+	r.Extra["summary_functions_checked"] = nUsed
 	c07Extra(c, w, scope, inScope, ai)
 	r.Extra["requires"] = w.Requires
+	r.Extra["conditional_axioms_used"] = axiomUses
 }
 
 func emit(r *report.Run, rule, construct, pos string, o prove.Outcome) {
